@@ -49,8 +49,7 @@ pub fn py_slice_walk(len: usize, start: Option<i64>, end: Option<i64>, step: i64
     n
 }
 
-const STEP_ZERO: &str = "ValueError: slice step cannot be zero";
-const STR_OOR: &str = "IndexError: string index out of range";
+use incan_core::errors::IncanError;
 
 // ---- lists -------------------------------------------------------------------------------------------
 
@@ -64,13 +63,12 @@ pub fn list_get_body<N: Nd, const L: usize>(nd: &mut N, mutable: bool) {
     let idx = nd.i64();
     let want = py_index(len, idx);
     let copy = data;
-    let expect = if want.is_none() { Some(ErrorKind::IndexError) } else { None };
-    let text = || format!("IndexError: index {idx} out of range for list of length {len}");
+    let expect = if want.is_none() { Some(IncanError::index_out_of_range_for("list", idx, len)) } else { None };
     vcover!(len == L && idx == -(L as i64), "most negative valid index");
     vcover!(want.is_none() && idx > 0, "positive out-of-range index");
     vcover!(idx == i64::MIN, "i64::MIN index");
     if mutable {
-        let got = guarded(expect, text, || {
+        let got = guarded(expect, || {
             let r = incan_stdlib::collections::list_get_mut(&mut data[..len], idx);
             (*r, r as *mut u8 as usize)
         });
@@ -80,7 +78,7 @@ pub fn list_get_body<N: Nd, const L: usize>(nd: &mut N, mutable: bool) {
             assert!(addr == &data[w] as *const u8 as usize, "list_get_mut returned a reference to another slot");
         }
     } else {
-        let got = guarded(expect, text, || {
+        let got = guarded(expect, || {
             let r = incan_stdlib::collections::list_get(&data[..len], idx);
             (*r, r as *const u8 as usize)
         });
@@ -103,7 +101,7 @@ pub fn list_slice_body<N: Nd, const L: usize>(nd: &mut N, logged: bool) {
     let end = nd.opt_i64();
     let step = nd.opt_i64();
     let zero = step == Some(0);
-    let expect = if zero { Some(ErrorKind::ValueError) } else { None };
+    let expect = if zero { Some(IncanError::slice_step_zero()) } else { None };
     let mut idxs = [0usize; LOG_CAP];
     let m = if zero { 0 } else { py_slice_walk(len, start, end, step.unwrap_or(1), &mut idxs) };
     vcover!(zero, "zero step");
@@ -113,7 +111,7 @@ pub fn list_slice_body<N: Nd, const L: usize>(nd: &mut N, logged: bool) {
     vcover!(m == 1 && step == Some(i64::MIN), "step i64::MIN yields exactly one element");
     vcover!(start == Some(i64::MIN) && m > 0, "start i64::MIN clamps");
     log_reset();
-    let got = guarded(expect, || STEP_ZERO.to_string(), || incan_stdlib::collections::list_slice(&data[..len], start, end, step));
+    let got = guarded(expect, || incan_stdlib::collections::list_slice(&data[..len], start, end, step));
     if let Some(out) = got {
         let (elems, n) = produced_bytes(&out, logged);
         assert!(n == m, "list slice has a different number of elements than Python's");
@@ -145,8 +143,8 @@ pub fn str_char_at_body<N: Nd>(nd: &mut N, rev: bool, k: usize, wrapper: bool) {
     vcover!(k > 0 && want == Some(k - 1) && idx >= 0, "last scalar by positive index");
     vcover!(idx == i64::MIN, "i64::MIN index");
     if wrapper {
-        let expect = if want.is_none() { Some(ErrorKind::IndexError) } else { None };
-        let got = guarded(expect, || STR_OOR.to_string(), || incan_stdlib::strings::str_index(s, idx));
+        let expect = if want.is_none() { Some(IncanError::string_index_out_of_range()) } else { None };
+        let got = guarded(expect, || incan_stdlib::strings::str_index(s, idx));
         if let Some(out) = got {
             let mut buf = [0u8; 4];
             let e: &str = scalars[want.unwrap()].encode_utf8(&mut buf);
@@ -191,8 +189,8 @@ pub fn str_slice_body<N: Nd>(nd: &mut N, rev: bool, k: usize, wrapper: bool, log
     vcover!(m == 1 && step == Some(i64::MIN), "step i64::MIN yields exactly one scalar");
     log_reset();
     let out: Option<String> = if wrapper {
-        let expect = if zero { Some(ErrorKind::ValueError) } else { None };
-        guarded(expect, || STEP_ZERO.to_string(), || incan_stdlib::strings::str_slice(s, start, end, step))
+        let expect = if zero { Some(IncanError::slice_step_zero()) } else { None };
+        guarded(expect, || incan_stdlib::strings::str_slice(s, start, end, step))
     } else {
         match incan_core::strings::str_slice(s, start, end, step) {
             Ok(o) => {
@@ -276,42 +274,38 @@ pub fn range_step_body<N: Nd>(nd: &mut N) {
 pub fn range_zero_step_body<N: Nd>(nd: &mut N) {
     let a = nd.i64();
     let b = nd.i64();
-    let got = guarded(
-        Some(ErrorKind::ValueError),
-        || "ValueError: range() arg 3 must not be zero".to_string(),
-        || incan_stdlib::iter::range(a, b, 0),
-    );
+    let got = guarded(Some(IncanError::range_step_zero()), || incan_stdlib::iter::range(a, b, 0));
     assert!(got.is_none());
 }
 
 harnesses! {
-    #[kani::unwind(6)]
+    #[kani::unwind(34)]
     #[kani::stub(incan_stdlib::errors::raise, crate::env::raise_stub)]
     fn c05_list_get_l4(nd) { list_get_body::<_, 4>(nd, false) }
 
-    #[kani::unwind(6)]
+    #[kani::unwind(34)]
     #[kani::stub(incan_stdlib::errors::raise, crate::env::raise_stub)]
     fn c05_list_get_mut_l4(nd) { list_get_body::<_, 4>(nd, true) }
 
-    #[kani::unwind(8)]
+    #[kani::unwind(34)]
     #[kani::stub(incan_stdlib::errors::raise, crate::env::raise_stub)]
     #[kani::stub(alloc::vec::Vec::push, crate::env::vec_push_stub)]
     fn c05_list_slice_l4(nd) { list_slice_body::<_, 4>(nd, true) }
 
-    #[kani::unwind(10)]
+    #[kani::unwind(34)]
     #[kani::stub(incan_stdlib::errors::raise, crate::env::raise_stub)]
     #[kani::stub(alloc::vec::Vec::push, crate::env::vec_push_stub)]
     fn c05_list_slice_l6(nd) { list_slice_body::<_, 6>(nd, true) }
 
-    #[kani::unwind(7)]
+    #[kani::unwind(34)]
     #[kani::stub(incan_stdlib::errors::raise, crate::env::raise_stub)]
     fn c05_list_slice_real_vec_l3(nd) { list_slice_body::<_, 3>(nd, false) }
 
-    #[kani::unwind(2)]
+    #[kani::unwind(34)]
     #[kani::stub(incan_stdlib::errors::raise, crate::env::raise_stub)]
     fn c05_range_step(nd) { range_step_body(nd) }
 
-    #[kani::unwind(2)]
+    #[kani::unwind(34)]
     #[kani::stub(incan_stdlib::errors::raise, crate::env::raise_stub)]
     fn c05_range_zero_step(nd) { range_zero_step_body(nd) }
     // ---- strings: s[i] -------------------------------------------------------------------------------
@@ -329,10 +323,10 @@ harnesses! {
     fn c05_str_char_at_rev_k4(nd) { str_char_at_body(nd, true, 4, false) }
     #[kani::unwind(14)]
     fn c05_str_char_at_k6(nd) { str_char_at_body(nd, false, 6, false) }
-    #[kani::unwind(12)]
+    #[kani::unwind(34)]
     #[kani::stub(incan_stdlib::errors::raise, crate::env::raise_stub)]
     fn c05_str_index_k4(nd) { str_char_at_body(nd, false, 4, true) }
-    #[kani::unwind(12)]
+    #[kani::unwind(34)]
     #[kani::stub(incan_stdlib::errors::raise, crate::env::raise_stub)]
     fn c05_str_index_k0(nd) { str_char_at_body(nd, false, 0, true) }
 
@@ -358,7 +352,7 @@ harnesses! {
     #[kani::unwind(14)]
     #[kani::stub(alloc::string::String::push, crate::env::string_push_stub)]
     fn c05_str_slice_k6(nd) { str_slice_body(nd, false, 6, false, true) }
-    #[kani::unwind(12)]
+    #[kani::unwind(34)]
     #[kani::stub(incan_stdlib::errors::raise, crate::env::raise_stub)]
     #[kani::stub(alloc::string::String::push, crate::env::string_push_stub)]
     fn c05_str_slice_wrapper_k4(nd) { str_slice_body(nd, false, 4, true, true) }
